@@ -20,7 +20,7 @@ TECHNIQUE = "exhaustive enumeration of facade method x command set x every subse
 RULE = ("38 facade methods x every command set whose table offers the command x every subset of the optional keyword arguments (from "
         "inspect.signature of the command class; each supplied argument takes 2 non-default values) x caller buffers of kind bytearray / bytes / memoryview window x 2-3 well-formed device responses chosen to "
         "match the request and 8 truncated ones (a length field announcing more than was transferred: ~500 bytes at offsets 0-1, 0-3, 4-7, 2-3, FFh at 4, FFFEh and 10000h at 0; all bytes FFh); plus every method x set x 10 exception types raised by the device *after* it took the command (exactly one submission, the same exception object reaches the caller) (VPD page by page code, mode page by page code, PR IN data by service action, disc information by data type, READ CD "
-        "sectors by selection bits); READ/WRITE(10,12,16) through the real SCSIDevice / ISCSIDevice and the stand-in bindings with transfers of {1,2,7Fh,80h,7FFFh,8000h,8001h,40000,FFFFh} blocks of 512 bytes (one submission, whole buffers, iSCSI expected transfer length = buffer length); 11 methods (reads and writes) as the first call after a re-plug, plain or with the re-open failing once (EACCES/EMFILE/EBUSY), on a real SCSIDevice: one submission to the node now at the path; two facades over two devices (different sets, block sizes 512 / 4096) used alternately A.m, B.m', A.m for every pair of methods and offering sets: own device, own operation code, own block size, same CDB for A before and after. after every successful call: decode the returned command again, submit it again, repeat the call on the same facade (same CDB, one submission each, equal result, fresh buffers). Non-trivial = at least one optional argument supplied or a non-SPC command set; distinct = distinct (method, "
+        "sectors by selection bits); READ/WRITE(10,12,16) through the real SCSIDevice / ISCSIDevice and the stand-in bindings with transfers of {1,2,7Fh,80h,7FFFh,8000h,8001h,40000,FFFFh} blocks of 512 bytes (one submission, whole buffers, iSCSI expected transfer length = buffer length); 11 methods (reads and writes) as the first call after a re-plug, plain or with the re-open failing once (EACCES/EMFILE/EBUSY), on a real SCSIDevice: one submission to the node now at the path; two facades over two devices (different sets, block sizes 512 / 4096) used alternately A.m, B.m', A.m for every pair of methods and offering sets: own device, own operation code, own block size, same CDB for A before and after; the 12 script invocations shipped under tools/ and examples/ (inquiry, getlbastatus, mtx status/load/unload against a simulated changer, read16, read_cd, read_disc_information, readcapacity10/16, reportluns, reportpriority) run as a user runs them on both transports: no exception, CDB lengths, printed values agree with the device. after every successful call: decode the returned command again, submit it again, repeat the call on the same facade (same CDB, one submission each, equal result, fresh buffers). Non-trivial = at least one optional argument supplied or a non-SPC command set; distinct = distinct (method, "
         "set, argument dict, response).")
 ASSUMPTIONS = [
     "the recording device is a plain object with opcodes/execute/close: it notes call count, a copy of the CDB, id() of both buffers and whether cmd.result was already populated, then fills data-in in place",
@@ -404,6 +404,9 @@ def run_two(case, obs=None):
 
 
 def run_case(case, obs=None):
+    if case[0] == "tools":
+        from vf.props import c13_tools
+        return c13_tools.run_tool(*c13_tools.SCRIPTS[case[1]], case[2])[0]
     if case[0] == "two":
         return run_two(case, obs)
     if case[0] == "fault":
@@ -582,11 +585,26 @@ def replay(case):
 
 def partitions(tier):
     return ([[m] for m in F.FACADE] + [["transport", tr, m] for tr in ("sgio", "iscsi") for m in ("read10", "read12", "read16", "write10", "write12", "write16")]
-            + [["recovery"]] + [["two", m] for m in F.FACADE])
+            + [["recovery"]] + [["two", m] for m in F.FACADE] + [["tools"]])
 
 
 def run_partition(part, tier, seed):
     acc = Acc(seed)
+    if part[0] == "tools":
+        from vf.props import c13_tools
+        for i, sc in enumerate(c13_tools.SCRIPTS):
+            for tr in ("sgio", "iscsi"):
+                case = ["tools", i, tr]
+                acc.case(case, nontrivial=True, key=repr(case))
+                try:
+                    v, text = c13_tools.run_tool(*sc, tr)
+                except Exception:
+                    import traceback
+                    v, text = [("harness_error", traceback.format_exc()[-600:])], ""
+                for k, w in v:
+                    acc.violation(k, w, case)
+                acc.outcome((repr(case), hash(text), tuple(k for k, _ in v)))
+        return acc
     if part[0] == "two":
         m = part[1]
         for st_a in F.sets_offering(m):
